@@ -42,6 +42,8 @@ def oracle(case) -> list:
         partner[j] = i
     text = ssref.bpseq_text(seq, pairs)
     b = BpSeq.from_string(text)
+    # other structure objects come into being before this one is asked (state shared between objects would show)
+    _decoys = [BpSeq.from_string(t) for t in ssref.decoy_texts(n)]
     el = b.elements
     if not (isinstance(el, tuple) and len(el) == 4):
         return [D("C07:shape", f"elements returned {type(el).__name__}")]
